@@ -316,17 +316,31 @@ var reReqSecret = regexp.MustCompile(`^secret "([^"]*)" is required by`)
 func main() {
 	seed := flag.Uint64("seed", 1, "PRNG seed")
 	reps := flag.Int("reps", 24, "repetitions per input")
+	extractAmbient := flag.String("extract-ambient", "", "translator mode: list the ambient reads of the package in this directory")
+	gen := flag.String("gen", "GenAmbient.v", "output of -extract-ambient")
+	ambientBroken := flag.Bool("ambient-broken", false, "the ambient-read gate (coq/Out/Ambient.v) no longer checks: search for a failing input")
 	nsite := flag.Int("nsite", 60, "generated cases per site")
 	out := flag.String("out", "", "output directory")
 	repo := flag.String("repo", "/repo", "repository root (for testdata)")
 	replay := flag.String("replay", "", "replay file")
 	flag.Parse()
+	if *extractAmbient != "" {
+		os.Exit(doExtractAmbient(*extractAmbient, *gen))
+	}
 
 	if *replay != "" {
 		b, err := os.ReadFile(*replay)
 		hx.Must(err)
 		var f failure
 		hx.Must(json.Unmarshal(b, &f))
+		if strings.HasPrefix(f.Key, "clock-dependent:") {
+			if g := clockWitness(); g != nil {
+				fmt.Println("REPLAY: property violated:", g.What)
+				os.Exit(1)
+			}
+			fmt.Println("REPLAY: every schedule of the three families is reported at this time")
+			return
+		}
 		if f.Source == "" {
 			fmt.Println("REPLAY: no inline source in this replay (input:", f.Input, ")")
 			os.Exit(2)
@@ -687,6 +701,62 @@ func main() {
 			return res
 		})
 	}
+	// (9b) callees of every input shape linted in ONE run with their callers: what a caller is told
+	// about a required input must not depend on whether the callee's file or the callee's syntax
+	// tree reached the shared cache first (one small callee with large callers, one large callee
+	// with small callers; five runs per repetition)
+	{
+		cp := filepath.Join(*out, "calleeproj")
+		hx.Must(os.MkdirAll(filepath.Join(cp, ".git"), 0o755))
+		wd := filepath.Join(cp, ".github", "workflows")
+		inputs := "    inputs:\n      a:\n        type: string\n        required: true\n        default: ''\n      b:\n        type: string\n        required: true\n        default: null\n      c:\n        type: string\n        required: true\n" +
+			"      d:\n        type: boolean\n        required: true\n      e:\n        type: number\n        required: true\n        default: 0\n      f:\n        type: string\n        required: ${{ true }}\n      g:\n        required: True\n      h:\n        type: boolean\n        required: true\n        default: false\n" +
+			"    secrets:\n      s:\n        required: true\n      t:\n        required: ${{ true }}\n      u:\n"
+		var pad strings.Builder
+		for q := 0; q < 150; q++ {
+			fmt.Fprintf(&pad, "  j%d:\n    runs-on: ubuntu-latest\n    steps:\n      - run: echo ${{ github.sha }}\n", q)
+		}
+		writeFile(filepath.Join(wd, "small.yml"), "on:\n  workflow_call:\n"+inputs+"jobs:\n  j:\n    runs-on: ubuntu-latest\n    steps:\n      - run: echo\n")
+		writeFile(filepath.Join(wd, "large.yml"), "on:\n  workflow_call:\n"+inputs+"jobs:\n"+pad.String())
+		var files []string
+		for k := 0; k < 3; k++ {
+			a := filepath.Join(wd, fmt.Sprintf("calls-small-%d.yml", k))
+			writeFile(a, "on: push\njobs:\n"+pad.String()+"  zc:\n    uses: ./.github/workflows/small.yml\n")
+			b := filepath.Join(wd, fmt.Sprintf("calls-large-%d.yml", k))
+			writeFile(b, "on: push\njobs:\n  c:\n    uses: ./.github/workflows/large.yml\n    with:\n      c: x\n")
+			files = append(files, a, b)
+		}
+		files = append(files, filepath.Join(wd, "small.yml"), filepath.Join(wd, "large.yml"))
+		sort.Strings(files)
+		nontrivial++
+		sum.Dist["callee_and_callers_runs"]++
+		check("multi:callees-and-callers", "8 files: two callees declaring inputs of every shape (empty / null / zero / false default, required given by a placeholder, no type) and their callers", "", func(rep int) result {
+			var res result
+			for k := 0; k < 5; k++ {
+				r := lintFiles(files, rep+k)
+				res.Errs += strings.ReplaceAll(r.Errs, cp, "<proj>")
+				res.Out += strings.ReplaceAll(r.Out, cp, "<proj>")
+				res.Fail += r.Fail
+			}
+			return res
+		})
+	}
+	// (9c) a configuration that lists a self-hosted runner label (and a broken pattern) more than once
+	{
+		lp := filepath.Join(*out, "labelproj")
+		hx.Must(os.MkdirAll(filepath.Join(lp, ".git"), 0o755))
+		writeFile(filepath.Join(lp, ".github", "actionlint.yaml"), "self-hosted-runner:\n  labels:\n    - zeta\n    - alpha\n    - zeta\n    - 'bad['\n    - mid-*\n    - alpha\n    - 'worse['\n    - 'bad['\n    - omega\n    - mid-*\n")
+		wf := filepath.Join(lp, ".github", "workflows", "w.yaml")
+		writeFile(wf, "on: push\njobs:\n  a:\n    runs-on: nosuch-label\n    steps:\n      - run: echo\n  b:\n    runs-on: [self-hosted, other-unknown]\n    steps:\n      - run: echo\n")
+		nontrivial++
+		sum.Dist["duplicate_config_label_runs"]++
+		check("multi:duplicate-config-labels", "a configuration listing labels and broken patterns more than once; two unknown labels", "", func(rep int) result {
+			res := lintFiles([]string{wf}, rep)
+			res.Errs = strings.ReplaceAll(res.Errs, lp, "<proj>")
+			res.Out = strings.ReplaceAll(res.Out, lp, "<proj>")
+			return res
+		})
+	}
 	// (10) "how many times the run is repeated": the SAME Linter value lints the same file again;
 	// every run must report what the first one reported (a broken local action and a broken
 	// reusable workflow are reported once per RUN, not once per Linter)
@@ -783,6 +853,12 @@ func main() {
 		check("site:matrix-expr-row:"+src, "generated matrix with an expression row", src, func(rep int) result { return lintContent("gen.yaml", []byte(src), rep) })
 	}
 	runtime.GOMAXPROCS(runtime.NumCPU())
+	if *ambientBroken {
+		sum.Dist["clock_witness_search"]++
+		if f := clockWitness(); f != nil {
+			sum.OracleFails = append(sum.OracleFails, *f)
+		}
+	}
 	sum.Nontrivial = nontrivial
 	sum.Extra["repetitions_per_input"] = *reps
 	sum.Samples = append(sum.Samples, map[string]interface{}{"site": "format", "workflow": wfFormat([]int{0, 3, 5, 7}, 1)})
